@@ -21,10 +21,11 @@ try:
     demo = open(os.path.join(d, "demo_test.go")).read() if os.path.exists(os.path.join(d, "demo_test.go")) else None
     m = re.search(r"unittest/[A-Za-z0-9_/.-]+_test\.go", demo or "")
     demo_path = m.group(0) if m else "unittest/seeded/%s_test.go" % name.lower().replace("-", "_")
+    race = "-race " if demo and re.search(r"go test -race", demo) else ""
     if demo:
         os.makedirs(os.path.join(wt, os.path.dirname(demo_path)), exist_ok=True)
         open(os.path.join(wt, demo_path), "w").write(demo)
-        rc, out = sh("go test -count=1 ./%s/" % os.path.dirname(demo_path), wt)
+        rc, out = sh("go test %s-count=1 ./%s/" % (race, os.path.dirname(demo_path)), wt)
         res["demo_without_change"] = "pass" if rc == 0 else "FAIL"
     rc, out = sh("git apply --3way %s/patch.diff || git apply %s/patch.diff" % (d, d), wt)
     res["applies"] = rc == 0
@@ -37,7 +38,7 @@ try:
     if demo: os.rename("/tmp/_demo.go", os.path.join(wt, demo_path))
     rc, out = sh("go build ./...", wt); res["builds"] = rc == 0
     if demo:
-        rc, out = sh("go test -count=1 ./%s/" % os.path.dirname(demo_path), wt)
+        rc, out = sh("go test %s-count=1 ./%s/" % (race, os.path.dirname(demo_path)), wt)
         res["demo_with_change"] = "pass" if rc == 0 else "FAIL"
         os.remove(os.path.join(wt, demo_path))
     rc, out = sh("go test -count=1 ./... 2>&1 | grep -E '^(FAIL|--- FAIL|ok)' | grep -v '^ok' | head -5", wt)
